@@ -31,13 +31,13 @@ import (
 
 // Suite is a set of cases sharing one emitted code base.
 type Suite struct {
-	Prefix string
-	Shapes []*Shape
-	byKey  map[string]*Shape
-	Cases  []*Case
-	Schema *abs.Schema
-	Built  *abs.Built
-	Files  *protoregistry.Files
+	Prefix  string
+	Shapes  []*Shape
+	byKey   map[string]*Shape
+	Cases   []*Case
+	Schema  *abs.Schema
+	Built   *abs.Built
+	Files   *protoregistry.Files
 	Skipped int
 }
 
@@ -99,7 +99,7 @@ func (b *Builder) Finish() (*Suite, error) {
 	return s, nil
 }
 
-func (s *Suite) pkgOf(sh *Shape) string { return fmt.Sprintf("gen/%s%d", s.Prefix, sh.Pkg) }
+func (s *Suite) pkgOf(sh *Shape) string    { return fmt.Sprintf("gen/%s%d", s.Prefix, sh.Pkg) }
 func (s *Suite) protoPkg(sh *Shape) string { return fmt.Sprintf("%s%d.v1", s.Prefix, sh.Pkg) }
 
 // sample response / custom error values
@@ -385,11 +385,11 @@ func (s *Suite) Trace(out *Outcome, cases []*Case) ([]string, []int, error) {
 
 // Validation result of trace validation.
 type Validation struct {
-	Accepted []*Case
-	Rejected []*Case
+	Accepted     []*Case
+	Rejected     []*Case
 	RejectedLine map[int]string // case id -> the rejected trace line
-	TLCRuns  int
-	States   int64
+	TLCRuns      int
+	States       int64
 }
 
 // Validate runs TLC (Trace_Wire) over the cases; a rejected case is isolated, recorded, removed,
